@@ -36,7 +36,7 @@ def register(prop, level, level_text, level_note, proof=False, bounded=True, exp
 register("C16", "exploration",
          "Bounded: the contract of remove_unloaded (exact deleted set = dead logic minus protected nodes, frame on survivors, returned list, idempotence) is evaluated on the real method over an exhaustive small scope and random DAGs.",
          "oracle = reachability via networkx; scope as stated in evidence.bound",
-         proof=False, explanation="bounded stand-in of the remove_unloaded contract on the real function")
+         proof=True, explanation="bounded stand-in of the remove_unloaded contract on the real function")
 
 register("C01", "exploration",
          "Bounded: solve()/cnf() contract (False iff no consistent valuation agrees with A; result total, Boolean, consistent, agrees with A; cnf models projected on nodes == consistent valuations) checked on the real functions against an independent simulator.",
